@@ -1,11 +1,95 @@
-/- BDS 4,5 — crates/rs1090/src/decode/bds/bds45.rs   (STUB: not modelled yet) -/
+/-
+BDS 4,5 meteorological hazard report — crates/rs1090/src/decode/bds/bds45.rs
+
+`MeteorologicalHazardReport` (56 bits, `#[serde(tag = "bds", rename = "45")]`), no
+`skip_serializing_if`: absent options print as `null`.
+
+  5 × (1+2)  turbulence, wind_shear, microburst, icing, wake_vortex   read_level  Option<Level>
+  1+1+9      static_temperature  read_temperature  Option<f64> (status, sign, 9 bits, LSB 0.25)
+  1+11       static_pressure     read_pressure     Option<u32>
+  1+12       radio_height        read_height       Option<u32> = value·16
+  5          reserved            map = fail_if_not_zero                 serde(skip)
+
+Quirk kept: with the temperature status bit clear only the 9-bit *value* must be zero; the sign
+bit is not looked at (status 0, sign 1, value 0 is accepted as `None`).
+-/
 import Rs1090.Model.Decode.Common
 namespace Rs1090.Model.Bds45
 open Rs1090 Rs1090.Model
 
-/-- STUB -/
-def modelled : Bool := false
+def modelled : Bool := true
 
-def read : R SerFields := R.fail .other
+/-- `read_level`: serde name of the unit variant of `Level`.
+    `(true, _) => unreachable!()` is a panic site (never reached with a 2-bit value). -/
+def level (status : Bool) (value : Nat) : Outcome (Option Json) :=
+  if status then
+    match value with
+    | 0 => .ok (some (.lit (key! "Nil")))
+    | 1 => .ok (some (.lit (key! "Light")))
+    | 2 => .ok (some (.lit (key! "Moderate")))
+    | 3 => .ok (some (.lit (key! "Severe")))
+    | _ => .panic .unreachable
+  else if value == 0 then .ok none
+  else .err .assertion
+
+/-- signed quarter-degrees: `(value - 512) * 0.25` when the sign bit is set, else `value * 0.25` -/
+def temperatureQ (sign : Bool) (value : Nat) : Int :=
+  if sign then (value : Int) - 512 else (value : Int)
+
+/-- `read_temperature`: quarter-degrees Celsius (exact in f64) -/
+def temperature (status sign : Bool) (value : Nat) : Outcome (Option Int) :=
+  let q := temperatureQ sign value
+  if status then
+    (if -320 ≤ q && q ≤ 240 then .ok (some q) else .err .assertion)
+  else if value == 0 then .ok none
+  else .err .assertion
+
+/-- `read_pressure`: hPa, raw 11-bit value -/
+def pressure (status : Bool) (value : Nat) : Outcome (Option Nat) :=
+  if status then .ok (some value)
+  else if value == 0 then .ok none
+  else .err .assertion
+
+/-- `read_height`: feet, `value * 16` on u32 -/
+def height (status : Bool) (value : Nat) : Outcome (Option Nat) :=
+  if status then do
+    let h ← mulU 32 value 16
+    .ok (some h)
+  else if value == 0 then .ok none
+  else .err .assertion
+
+def readLevel : R (Option Json) := do
+  let status ← flag
+  let value ← bits 2
+  R.lift (level status value)
+
+def read : R SerFields := do
+  let turb ← readLevel
+  let shear ← readLevel
+  let burst ← readLevel
+  let icing ← readLevel
+  let wake ← readLevel
+  let tStatus ← flag
+  let tSign ← flag
+  let tValue ← bits 9
+  let temp ← R.lift (temperature tStatus tSign tValue)
+  let pStatus ← flag
+  let pValue ← bits 11
+  let pres ← R.lift (pressure pStatus pValue)
+  let hStatus ← flag
+  let hValue ← bits 12
+  let hgt ← R.lift (height hStatus hValue)
+  let reserved ← bits 5
+  if reserved != 0 then R.fail .assertion else
+  pure <| .ok [
+    fld (key! "bds") (.lit (key! "45")),
+    fldOpt (key! "turbulence") turb,
+    fldOpt (key! "wind_shear") shear,
+    fldOpt (key! "microburst") burst,
+    fldOpt (key! "icing") icing,
+    fldOpt (key! "wake_vortex") wake,
+    fldOpt (key! "static_temperature") (temp.map fun q => jrat q 4),
+    fldOpt (key! "static_pressure") (pres.map jnat),
+    fldOpt (key! "radio_height") (hgt.map jnat) ]
 
 end Rs1090.Model.Bds45
